@@ -234,6 +234,8 @@ class Entry(Generic[ValueTypeT, InfoTypeT]):
             if (is_min and self._value > value) or (is_max and self._value < value):
                 if info and (is_all or is_any):
                     self._infos = {info}
+                else:
+                    self._infos = set()
 
                 self._value = value
 
